@@ -312,6 +312,12 @@ func runC07(w *mon.W) {
 			b[i] = good[r.Intn(len(good))]
 		}
 		pos := r.Intn(n)
+		switch r.Intn(4) { // the unencodable residue also as the first and as the closing residue of the protein
+		case 0:
+			pos = 0
+		case 1:
+			pos = n - 1
+		}
 		switch kind {
 		case 0:
 			b[pos] = strings.ToLower(good[r.Intn(len(good))])
@@ -333,6 +339,12 @@ func runC07(w *mon.W) {
 				b[pos] = "J"
 			} else {
 				b[pos] = zeroed[r.Intn(len(zeroed))]
+				for _, z := range zeroed { // a closing stop the table has no usable codon for, as generated proteins end
+					if z == "*" && r.Intn(2) == 0 {
+						pos = n - 1
+						b[pos] = "*"
+					}
+				}
 			}
 		}
 		protein := strings.Join(b, "")
@@ -390,6 +402,12 @@ func runC07(w *mon.W) {
 		// every second table puts one codon of every amino acid at exactly 10% and another just above (10.1..11%)
 		// and every third one gives every amino acid shares of the form x.99 %
 		tbl, snap := reweightedTable(tid, tr, false, t%3 == 1, t%3 == 2)
+		if t%6 == 5 {
+			// a default table with uniform weights: every synonym is eligible, also the seventh and eighth of serine
+			tid = []int{5, 12, 9, 24}[(t/6)%4]
+			tbl = deepTable(tid)
+			snap = snapshot(tbl)
+		}
 		for _, l := range snap.letters() {
 			id := fmt.Sprintf("prop-t%d-%s", tid, l)
 			idx++
